@@ -54,12 +54,25 @@ func NewConn(ctx context.Context, conn net.Conn, options ...Option) (outConn *Co
 		convertErrorsToAlerts(conn, err)
 	}()
 	done := make(chan struct{})
-	defer close(done)
+	stopped := make(chan struct{})
+	var expired bool
 	go func() {
+		defer close(stopped)
 		select {
 		case <-done:
 		case <-ctx.Done():
+			expired = true
 			conn.SetDeadline(time.Now())
+		}
+	}()
+	defer func() {
+		// The context must not affect the connection once NewConn has
+		// returned: wait for the goroutine, and undo its deadline if the
+		// ClientHello was read successfully anyway.
+		close(done)
+		<-stopped
+		if expired && err == nil {
+			conn.SetDeadline(time.Time{})
 		}
 	}()
 	record, err := readRecord(conn)
